@@ -346,6 +346,33 @@ def check_rseq(seed, d, n=6, bs=2, raw=True):
     return v, not np.array_equal(other, one)
 
 
+def check_dim_change(kind, seed, d1, d2, n=4):
+    """State carried between two uses of one object: a sampler that drew n points in d1 dimensions continues, in d2 dimensions,
+    exactly like a same-seed sampler that drew its first n points in d2 dimensions (the cursor does not depend on the space, and
+    nothing computed for d1 may leak into d2). Public path on the dyadic grid (snapping injective)."""
+    from black_it.samplers.halton import HaltonSampler
+    from black_it.samplers.r_sequence import RSequenceSampler
+    from vf.core import quiet
+
+    cls = HaltonSampler if kind == "halton" else RSequenceSampler
+    sp1, sp2 = _space(d1, 2.0**-17), _space(d2, 2.0**-17)
+
+    def draw(s, sp, k):
+        with quiet():
+            return np.asarray(s.sample_batch(k, sp, np.zeros((0, sp.dims)), np.zeros(0)))
+
+    a = cls(batch_size=n, random_state=seed)
+    draw(a, sp1, n)
+    a2 = draw(a, sp2, n)
+    b = cls(batch_size=n, random_state=seed)
+    draw(b, sp2, n)
+    b2 = draw(b, sp2, n)
+    if a2.shape != b2.shape or not np.array_equal(a2, b2):
+        return [(f"{kind}-depends-on-earlier-space", f"{cls.__name__} seed {seed}: points {n}..{2 * n - 1} in {d2} dimensions differ when the first {n} points were drawn in {d1} dimensions "
+                 f"(first differing column {int(np.argmax(np.any(a2 != b2, axis=0))) if a2.shape == b2.shape else 'shape'})")]
+    return []
+
+
 _PHI = {}
 
 
@@ -382,6 +409,15 @@ def cell_samplers(cell):
             res["stats"]["rseq_other_seed_differs"] = res["stats"].get("rseq_other_seed_differs", 0) + int(differs)
             for key, what in vs:
                 _viol(res, key, what, {"mode": "rseq", "seed": seed, "d": d})
+    for seed in cell["seeds"][:2]:
+        for d1, d2 in cell.get("dim_changes", []):
+            for kind in ("halton", "rseq"):
+                vs = check_dim_change(kind, seed, d1, d2)
+                res["evaluations"] += 1
+                res["traces"] += 1
+                res["nontrivial"] += 1
+                for key, what in vs:
+                    _viol(res, key, what, {"mode": "dim-change", "kind": kind, "seed": seed, "d1": d1, "d2": d2})
     for seed, ss in starts.items():
         if len(ss) != 1:
             _viol(res, "start-index-not-function-of-seed", f"HaltonSampler seed {seed}: start indices {sorted(ss)} across dimensions", {"mode": "halton-sampler", "seed": seed, "d": 1, "raw": False})
@@ -412,6 +448,8 @@ def replay_case(case):
     if m == "rseq":
         vs, _ = check_rseq(case["seed"], case["d"])
         return [{"key": k, "what": w} for k, w in vs]
+    if m == "dim-change":
+        return [{"key": k, "what": w} for k, w in check_dim_change(case["kind"], case["seed"], case["d1"], case["d2"])]
     if m == "primes":
         r = cell_primes({"nmax": max(case["seq"] + [40])})
         return [{"key": v["key"], "what": v["what"]} for v in r["violations"]]
@@ -422,6 +460,7 @@ def replay_case(case):
 def main(ctx):
     S = ctx.seed
     cells = []
+    DIMS_CH = [1, 2, 3, 5, 6, 12, 17, 18, 20, 33, 40]
     nb = 10 if ctx.quick else 40
     chunk = 1024
     for lo in range(0, N_IDX, chunk):
@@ -441,9 +480,10 @@ def main(ctx):
     seeds = list(range(S, S + nseeds))
     for i in range(0, nseeds, 5):
         cells.append({"kind": "samplers", "seeds": seeds[i:i + 5], "halton_dims": [(1, False), (2, False), (3, False), (3, True), (10, True), (40, True)] if i == 0 or not ctx.quick else [(1, False), (3, False), (5, True)],
-                      "rseq_dims": [1, 2, 3, 10, 40] if i == 0 or not ctx.quick else [1, 2, 7], "phi": i == 0})
+                      "rseq_dims": [1, 2, 3, 10, 40] if i == 0 or not ctx.quick else [1, 2, 7], "phi": i == 0,
+                      "dim_changes": [(a, b) for a in DIMS_CH for b in DIMS_CH if a != b][i // 5::nseeds // 5]})
     ctx.bounds = {"halton_indices": f"[0, {N_IDX})", "primes": nb, "batch_sizes": "sizes 1,2 at every end position, 3(,4) aligned; sizes 5,8,61(,16) aligned and at every end position within 12 (32 thorough; 2 for size > 8) of a power of 2, 3 or 5", "sampler_seeds": f"{S}..{S + nseeds - 1}",
-                  "compositions": "all 32 compositions of 6", "dims": "1..3 public path on dyadic grid 2^-17; up to 40 with identity snapping"}
+                  "compositions": "all 32 compositions of 6", "dimension_changes_on_one_object": "all ordered pairs of {1,2,3,5,6,12,17,18,20,33,40}, both samplers, two seeds", "dims": "1..3 public path on dyadic grid 2^-17; up to 40 with identity snapping"}
     ctx.rule = ("every index of the range in every listed batch size/alignment; every composition of 6; evaluations = halton()/sampler scenarios judged; "
                 "non-trivial = batch of more than one point / sampler scenario")
     ctx.assumptions = ["reference radical inverse by exact Fraction digit reversal; phi_d by 60-digit Decimal fixed-point iteration",
